@@ -7,13 +7,15 @@
   number representation enters through two explicit hypotheses, each discharged separately:
 
     (G) gadget identity  `Σ d_{ij}·P·g_{ij} = P·c`
-        — `gadget_identity` proves it for the code's row layout from ROW-WISE digit recombination,
-          which is `digits_recombine` for base-2^w digits PROVIDED the digit count covers the modulus;
-          `digitCount_sufficient_counterexample` shows the code's count does NOT always (defect 1),
-          `decomposeRNS_noP_ignores_index`/`noP_gadget_identity_counterexample` show that for keys
-          without `P` and `BaseTwoDecomposition = 0` the code's digits violate (G) (defect 2);
-        (defect 3, code only: a key generated at `LevelP = -1` while the parameters have a `P` makes
-          `GadgetProduct` panic in `PiOverflowMargin(-1)` — exhibited by the probe `ks_completes`);
+        — `gadget_identity` proves it for the code's row layout from ROW-WISE digit recombination:
+          for base-2^w digits that is `digits_recombine_code` (the digit count `⌈bitlen q/w⌉` always covers
+          the modulus: `digitCount_sufficient`); for the single-prime RNS digits (keys with ≤ 1 special
+          prime, `BaseTwoDecomposition = 0`, in particular keys without `P`) it is `noP_gadget_identity`.
+        History (fixes C04-1/2/3 in /repo): the pre-fix digit count `⌈round(log2 q)/w⌉` did NOT always
+          cover the modulus (`digitCountRoundLog2_counterexample`, `…_sufficient_iff`); the pre-fix call
+          `DecomposeAndSplit(…, nbPi = levelP+1 = 0, …)` for keys without `P` read every digit from row 0
+          (`decomposeRNS_nbPi0_ignores_index`, `nbPi0_gadget_identity_counterexample`); `PiOverflowMargin(-1)`
+          panicked (probe `ks_completes`).  The probes that exhibited them stay and now hold.
     (R) rounding  `E − ρ₀ − ρ₁·s = P·ν`  (ν = the rounded noise; the ρ are the centred remainders
           `ModUpPtoQ` of the `P` parts) — arithmetic of C02 (`modDown_err`), kept as a hypothesis here.
 
@@ -28,6 +30,7 @@ import Lattigo.Proofs.GadgetDigits
 import Lattigo.Proofs.GadgetIdentity
 import Lattigo.Proofs.KeySwitch
 import Lattigo.Proofs.KeySwitchHoisted
+import Lattigo.Proofs.KeySwitchDigits
 import Mathlib.Data.ZMod.Basic
 import Mathlib.Tactic.NormNum
 
@@ -230,69 +233,88 @@ theorem digits_recombine (w n q x : Nat) (hq : q ≤ 2 ^ (w * n)) (hx : x < q) :
 
 example : (97 : Nat) ≤ 2 ^ (3 * 3) ∧ (77 : Nat) < 97 := by decide
 
-/-- **digitCount_sufficient** — "the code's `BaseTwoDecompositionVectorSize` always covers the modulus" —
-    is FALSE: -/
-theorem digitCount_sufficient_counterexample :
-    ¬ (∀ q w : Nat, 0 < w → q ≤ 2 ^ (w * baseTwoDigits q w)) := KS.digitCount_sufficient_counterexample
+/-- **digitCount_sufficient** (full strength): the code's `BaseTwoDecompositionVectorSize` entry
+    `n = ⌈bitlen(q)/w⌉` always covers the modulus: `q ≤ 2^{w·n}`. -/
+theorem digitCount_sufficient (q w : Nat) (hw : 0 < w) : q ≤ 2 ^ (w * baseTwoDigits q w) :=
+  KS.digitCount_sufficient q w hw
 
-/-- the lost top bit, on the model's digit function, at the witness prime of the harness -/
-theorem digits_recombine_counterexample :
-    ∃ q w x : Nat, 0 < w ∧ x < q ∧ recombine w (baseTwoDigits q w) x ≠ x :=
-  KS.digits_recombine_counterexample
+example : baseTwoDigits 1207959937 10 = 4 := baseTwoDigits_witness
 
-/-- exact domain of validity of the code's count -/
-theorem digitCount_sufficient_iff (q k w : Nat) (hw : 0 < w) (h1 : 2 ^ k < q) (h2 : q < 2 ^ (k + 1)) :
-    q ≤ 2 ^ (w * baseTwoDigits q w) ↔ (2 ^ (2 * k + 1) ≤ q * q ∨ ¬ w ∣ k) :=
-  KS.digitCount_sufficient_iff q k w hw h1 h2
+/-- **digits_recombine_code**: hence every residue `x < q` is reassembled exactly from the digits the
+    code extracts (`MaskVec`) with the count the code allots. -/
+theorem digits_recombine_code (q w x : Nat) (hw : 0 < w) (hx : x < q) :
+    recombine w (baseTwoDigits q w) x = x := KS.digits_recombine_code q w x hw hx
+
+example : (0 : Nat) < 10 ∧ (2 : Nat) ^ 30 < 1207959937 := by norm_num
+
+/-- regression — the PRE-FIX count `⌈round(log2 q)/w⌉` did not always cover the modulus -/
+theorem digitCountRoundLog2_counterexample :
+    ¬ (∀ q w : Nat, 0 < w → q ≤ 2 ^ (w * baseTwoDigitsRoundLog2 q w)) :=
+  KS.digitCountRoundLog2_counterexample
+
+/-- regression — the lost top bit at the witness prime of the harness -/
+theorem digitsRoundLog2_recombine_counterexample :
+    ∃ q w x : Nat, 0 < w ∧ x < q ∧ recombine w (baseTwoDigitsRoundLog2 q w) x ≠ x :=
+  KS.digitsRoundLog2_recombine_counterexample
+
+/-- regression — exact domain of validity of the pre-fix count -/
+theorem digitCountRoundLog2_sufficient_iff (q k w : Nat) (hw : 0 < w) (h1 : 2 ^ k < q)
+    (h2 : q < 2 ^ (k + 1)) :
+    q ≤ 2 ^ (w * baseTwoDigitsRoundLog2 q w) ↔ (2 ^ (2 * k + 1) ≤ q * q ∨ ¬ w ∣ k) :=
+  KS.digitCountRoundLog2_sufficient_iff q k w hw h1 h2
 
 example : (2 : Nat) ^ 30 < 1207959937 ∧ 1207959937 < 2 ^ 31 := by norm_num
 
-/-- **digitCount_sufficient_partial**: under `q ≤ 2^{w·n}` (`bitlen q ≤ w·n`) for the code's `n` -/
-theorem digitCount_sufficient_partial (q w x : Nat) (hcover : q ≤ 2 ^ (w * baseTwoDigits q w))
-    (hx : x < q) : recombine w (baseTwoDigits q w) x = x :=
-  KS.digitCount_sufficient_partial q w x hcover hx
+/-! ## 4. Keys without `P`, `BaseTwoDecomposition = 0`; the executable model on the former witnesses -/
 
-/-- hypothesis met by the witness prime with base `2^16` (the configuration that works) -/
-example : (1207959937 : Nat) ≤ 2 ^ (16 * baseTwoDigits 1207959937 16) := by
-  simp only [baseTwoDigits, roundLog2_witness]; norm_num
+/-- **noP_gadget_identity**: with `nbPi = 1` — what `gadgetProductSinglePAndBitDecompLazy` passes to
+    `DecomposeAndSplit`, with or without `P` — the RNS digit `i` of a canonical `c` coincides with `c` on
+    row `i`: the row-wise recombination hypothesis of `gadget_identity` (`grp k = k`, `b_0 = 1`). -/
+theorem noP_gadget_identity (qsP : List Nat) (i : Nat) (c : RPoly) (hi : i < c.qs.length)
+    (hcanon : ∀ x ∈ c.c.getD i [], x < c.qs.getD i 1) :
+    (decomposeRNS qsP 1 i c).c.getD i [] = c.c.getD i [] :=
+  KS.decomposeRNS_one_row qsP i c hi hcanon
 
-/-- the patched count (`⌈bitlen(q)/w⌉`) is always sufficient -/
-theorem digitCount_fixed_sufficient (q w : Nat) (hw : 0 < w) :
-    q ≤ 2 ^ (w * baseTwoDigitsFixed q w) := KS.digitCount_fixed_sufficient q w hw
+def cNoP : RPoly := ⟨[5, 7], [[1], [3]]⟩
 
-/-! ## 4. Defect 2 on the model: keys without `P`, `BaseTwoDecomposition = 0` -/
+example : (1 : Nat) < cNoP.qs.length ∧ ∀ x ∈ cNoP.c.getD 1 [], x < cNoP.qs.getD 1 1 := by decide
 
-/-- `gadgetProductSinglePAndBitDecompLazy` calls `DecomposeAndSplit(…, nbPi = levelP+1 = 0, i, …)` when
-    the key has no `P`: the digit then does not depend on `i` — every RNS digit is read from row 0. -/
-theorem decomposeRNS_noP_ignores_index (qsP : List Nat) (i : Nat) (c : RPoly) :
+/-- …and (G) on the executable model, former witness of defect 2: `Q = 5·7`, no `P`, `N = 1`,
+    `c = (1 mod 5, 3 mod 7)`, the digits `decompose` now produces. -/
+theorem noP_gadget_identity_instance :
+    wsumMat (RPoly.zero [5, 7] 1) (decompose [] 0 [1, 1] cNoP)
+      (pgMat (pgElt [5, 7] [] 1 0) [[()], [()]]) = cNoP := by decide
+
+/-- regression — `DecomposeAndSplit` itself (unchanged) must not be called with `nbPi = 0`: the digit then
+    does not depend on `i` (every RNS digit is read from row 0); the pre-fix caller did exactly that
+    for keys without `P`. -/
+theorem decomposeRNS_nbPi0_ignores_index (qsP : List Nat) (i : Nat) (c : RPoly) :
     decomposeRNS qsP 0 i c = decomposeRNS qsP 0 0 c := by
   simp [decomposeRNS]
 
-/-- …and the gadget identity (G) then FAILS on the executable model: `Q = 5·7`, no `P`, `N = 1`,
-    `c = (1 mod 5, 3 mod 7)`; the code's digits are `(1, 1)` for both rows, `Σ d_i·g_i = (1, 1) ≠ c`. -/
-def cNoP : RPoly := ⟨[5, 7], [[1], [3]]⟩
-
-theorem noP_gadget_identity_counterexample :
-    wsumMat (RPoly.zero [5, 7] 1) (decompose [] 0 [1, 1] cNoP)
+/-- regression — and (G) then failed on the same instance -/
+theorem nbPi0_gadget_identity_counterexample :
+    wsumMat (RPoly.zero [5, 7] 1) [[decomposeRNS [] 0 0 cNoP], [decomposeRNS [] 0 1 cNoP]]
       (pgMat (pgElt [5, 7] [] 1 0) [[()], [()]]) ≠ cNoP := by decide
 
-/-- with `nbPi = 1` (the proposed patch) the same instance satisfies (G) -/
-example : wsumMat (RPoly.zero [5, 7] 1) [[decomposeRNS [] 1 0 cNoP], [decomposeRNS [] 1 1 cNoP]]
-      (pgMat (pgElt [5, 7] [] 1 0) [[()], [()]]) = cNoP := by decide
-
-/-- Defect 1 on the executable model: `q = 1207959937`, no `P`, `w = 10`, the code's 3 digits,
-    `c = 2^30 < q`: `Σ_j d_j·2^{10j} = 0 ≠ c`. -/
+/-- (G) on the executable model, former witness of defect 1: `q = 1207959937`, no `P`, `w = 10`,
+    `c = 2^30 < q`; the code now allots 4 digits and `Σ_j d_j·2^{10j} = c`. -/
 def cTop : RPoly := ⟨[1207959937], [[2 ^ 30]]⟩
 
-theorem bitDecomp_gadget_identity_counterexample :
+theorem bitDecomp_gadget_identity_instance :
     wsumMat (RPoly.zero [1207959937] 1)
       (decompose [] 10 (gadgetShape [1207959937] 0 0 10) cTop)
-      (pgMat (pgElt [1207959937] [] 1 10) [[(), (), ()]]) ≠ cTop := by
-  have hs : gadgetShape [1207959937] 0 0 10 = [3] := by
+      (pgMat (pgElt [1207959937] [] 1 10) [[(), (), (), ()]]) = cTop := by
+  have hs : gadgetShape [1207959937] 0 0 10 = [4] := by
     simp [gadgetShape, baseRNSDecompositionVectorSize, baseTwoDecompositionVectorSize,
       baseTwoDigits_witness]
   rw [hs]
   decide
+
+/-- regression — with the 3 digits of the pre-fix count the same instance failed -/
+theorem bitDecompRoundLog2_gadget_identity_counterexample :
+    wsumMat (RPoly.zero [1207959937] 1) (decompose [] 10 [3] cTop)
+      (pgMat (pgElt [1207959937] [] 1 10) [[(), (), ()]]) ≠ cTop := by decide
 
 /-- **hoisted_eq_plain on the executable model**: `GadgetProduct` and `GadgetProductHoisted` fed with
     `DecomposeNTT(·, ·, nbPi = levelP+1, c)` agree for every key with one entry per row, at least one
@@ -317,14 +339,17 @@ open Lattigo.KS.C04 in
 #print axioms Lattigo.KS.C04.hoisted_eq_plain
 #print axioms Lattigo.KS.C04.gadget_identity
 #print axioms Lattigo.KS.C04.digits_recombine
-#print axioms Lattigo.KS.C04.digitCount_sufficient_counterexample
-#print axioms Lattigo.KS.C04.digits_recombine_counterexample
-#print axioms Lattigo.KS.C04.digitCount_sufficient_iff
-#print axioms Lattigo.KS.C04.digitCount_sufficient_partial
-#print axioms Lattigo.KS.C04.digitCount_fixed_sufficient
-#print axioms Lattigo.KS.C04.decomposeRNS_noP_ignores_index
-#print axioms Lattigo.KS.C04.noP_gadget_identity_counterexample
-#print axioms Lattigo.KS.C04.bitDecomp_gadget_identity_counterexample
+#print axioms Lattigo.KS.C04.digitCount_sufficient
+#print axioms Lattigo.KS.C04.digits_recombine_code
+#print axioms Lattigo.KS.C04.digitCountRoundLog2_counterexample
+#print axioms Lattigo.KS.C04.digitsRoundLog2_recombine_counterexample
+#print axioms Lattigo.KS.C04.digitCountRoundLog2_sufficient_iff
+#print axioms Lattigo.KS.C04.noP_gadget_identity
+#print axioms Lattigo.KS.C04.noP_gadget_identity_instance
+#print axioms Lattigo.KS.C04.decomposeRNS_nbPi0_ignores_index
+#print axioms Lattigo.KS.C04.nbPi0_gadget_identity_counterexample
+#print axioms Lattigo.KS.C04.bitDecomp_gadget_identity_instance
+#print axioms Lattigo.KS.C04.bitDecompRoundLog2_gadget_identity_counterexample
 #print axioms Lattigo.KS.C04.hoisted_eq_plain_R
 #print axioms Lattigo.KS.C04.degree_up_phase
 #print axioms Lattigo.KS.C04.degree_down_phase
